@@ -173,10 +173,6 @@ def _names(n):
     return [f"t{i:02d}" for i in range(n)]
 
 
-def _sym_dict(names, dists):
-    return {(a, b): float(dists[(a, b)]) for a in names for b in names if a != b}
-
-
 def gen_generic_matrix(rng, n):
     """symmetric, zero diagonal, generic float entries (no ties)"""
     names = _names(n)
@@ -391,6 +387,12 @@ def correspondence(ctx):
             add_failure(out, "corr", f"nj model differs from nj() ({kind})", inp, "same tree", why, confirmed=False)
             continue
         bump(out, "nj", f"{kind}:{len(names)}")
+        if len(names) >= 3:
+            # the Lean certificate of nj_realises_additive_checked, evaluated by the driver on this instance
+            bump(out, "nj_certificate", f"{kind}:{rep.get('certified')}")
+            if kind == "additive" and rep.get("certified") is not True:
+                add_failure(out, "corr", "njCertified is false on an additive matrix (a selected pair is not a cherry)", inp, True, rep.get("certified"), confirmed=False)
+                continue
         if len(names) >= 4:
             out["nontrivial"].add(("nj", kind, tuple(sorted(inp["d"].items()))))
         if len(out["samples"]) < 5 and kind == "additive" and len(names) == 5:
@@ -425,6 +427,11 @@ def correspondence(ctx):
             add_failure(out, "corr", f"upgma model differs from upgma() ({kind})", inp, str(U.canon_rooted(model)[0])[:300], str(U.canon_rooted(real)[0])[:300], confirmed=False)
             continue
         bump(out, "upgma", f"{kind}:{len(names)}")
+        if len(names) >= 2:
+            bump(out, "upgma_certificate", f"{kind}:{rep.get('certified')}")
+            if kind == "ultrametric" and rep.get("certified") is not True:
+                add_failure(out, "corr", "upgmaCertified is false on an ultrametric matrix (selected pair not a live minimum)", inp, True, rep.get("certified"), confirmed=False)
+                continue
         if len(names) >= 4:
             out["nontrivial"].add(("upgma", kind, tuple(sorted(inp["d"].items()))))
     return out
@@ -443,13 +450,6 @@ def _spec_fail(out, what, inp, expected, got, sig):
 def _oracle_matrix(calc, canon, seqs):
     n = len(seqs)
     return [[0.0 if a == b else U.oracle_pair(calc, seqs[a][1], seqs[b][1], canon) for b in range(n)] for a in range(n)]
-
-
-def _pair_class(s1, s2, canon):
-    cols = [(a, b) for a, b in zip(s1, s2)]
-    if all(a in canon and b in canon for a, b in cols):
-        return "canonical"
-    return "noncanonical"
 
 
 def _check_alignment(out, moltype, canon, seqs, calcs, rng=None, relations=True):
